@@ -447,8 +447,37 @@ impl Check for C16 {
         }
     }
 
-    fn extra(&self, _tier: Tier, seed: u64) -> ExtraResult {
-        crc_enumeration(seed)
+    fn extra(&self, tier: Tier, seed: u64) -> ExtraResult {
+        let mut out = crc_enumeration(seed);
+        if tier == Tier::Thorough && out.violation.is_none() {
+            // coverage-guided campaign over byte strings (same differential oracle inside the target),
+            // seeded with a few valid frames of every type
+            let mut seeds: Vec<Vec<u8>> = Vec::new();
+            let mut rng = SplitMix::new(seed ^ 0xF0F0);
+            for k in 0..9u8 {
+                let f = match k {
+                    0 => SFrame::Syn { version: 3, nonce: rng.next() as u32, rate: 1000, size: 1000, alloc: 1000 },
+                    1 => SFrame::SynAck { nonce_ack: 1, nonce: 2, rate: 3, size: 4, alloc: 5 },
+                    2 => SFrame::Ack { nonce_ack: 7 },
+                    3 => SFrame::Error { nonce_ack: 7, code: 2 },
+                    4 => SFrame::Disconnect,
+                    5 => SFrame::DisconnectAck,
+                    6 => SFrame::Data { seq: 9, nonce: true, dgs: vec![SDatagram { seq: 5, ch: 3, w: 1, h: 1, f: 0, l: 0, len: 20, fill: 1 }, SDatagram { seq: 6, ch: 63, w: 300, h: 300, f: 1, l: 2, len: 300, fill: 2 }] },
+                    7 => SFrame::Sync { frame: Some(4), packet: Some(5) },
+                    _ => SFrame::AckF { fbase: 1, pbase: 2, groups: vec![(1, 0xff, true), (40, 1, false)] },
+                };
+                let mut v = vec![1u8];
+                v.extend_from_slice(&f.build().write());
+                seeds.push(v);
+            }
+            let fz = run_fuzz("frame_read", 20_000_000, seed, 1473, &seeds);
+            out.coverage.insert("fuzz_frame_read".into(), json!({"engine": "libFuzzer via cargo-fuzz", "execs": fz.execs, "note": fz.note, "artifact": fz.artifact.as_ref().map(|p| p.display().to_string())}));
+            out.evaluations += fz.execs;
+            if let Some(a) = fz.artifact {
+                out.violation = Some((Violation::new("fuzz:frame_read", format!("libFuzzer target frame_read stopped on an input it saved as {}: {}", a.display(), fz.note)), json!({"artifact": a.display().to_string()})));
+            }
+        }
+        out
     }
 }
 
